@@ -34,6 +34,7 @@ type faultPlan struct {
 	kind   string // "" = none; "W" WriteTableFile, "A" AddTableFilesToManifest, "C" Commit, "G" GetManyCompressed, "S" Sources
 	at     int    // fail the at-th call (0-based) of that kind
 	after  bool   // perform the call, then report failure (lost acknowledgement)
+	sticky bool   // fail every call of that kind from the at-th on (defeats client-side retries)
 	counts map[string]int
 	log    []string
 	fired  bool
@@ -134,16 +135,24 @@ var Plan = &faultPlan{counts: map[string]int{}}
 func (p *faultPlan) Set(kind string, at int, after bool) {
 	p.mu.Lock()
 	defer p.mu.Unlock()
-	p.kind, p.at, p.after, p.fired = kind, at, after, false
+	p.kind, p.at, p.after, p.fired, p.sticky = kind, at, after, false, false
 	p.counts = map[string]int{}
 	p.log = nil
+}
+
+// SetSticky: like Set(kind, at, false) but every later call of that kind fails too.
+func (p *faultPlan) SetSticky(kind string, at int) {
+	p.Set(kind, at, false)
+	p.mu.Lock()
+	p.sticky = true
+	p.mu.Unlock()
 }
 
 func (p *faultPlan) Clear() (log []string, fired bool, counts map[string]int) {
 	p.mu.Lock()
 	defer p.mu.Unlock()
 	log, fired, counts = p.log, p.fired, p.counts
-	p.kind, p.fired = "", false
+	p.kind, p.fired, p.sticky = "", false, false
 	p.counts = map[string]int{}
 	p.log = nil
 	return
@@ -159,6 +168,9 @@ func (p *faultPlan) hit(k string) (bool, bool) {
 	if p.kind == k && n == p.at && !p.fired {
 		p.fired = true
 		return !p.after, p.after
+	}
+	if p.kind == k && p.sticky && n > p.at {
+		return true, false
 	}
 	return false, false
 }
@@ -269,6 +281,23 @@ func (f *FaultyStore) Commit(ctx context.Context, current, last hash.Hash) (bool
 		return false, ErrInjected
 	}
 	return ok, err
+}
+
+// Path / GetChunkLocationsWithPaths make a FaultyStore usable as a remotesrv.RemoteSrvStore
+// (server-side fault injection for the HTTP/gRPC remote).
+func (f *FaultyStore) Path(ctx context.Context) (string, bool, error) {
+	if p, ok := f.ChunkStore.(interface {
+		Path(context.Context) (string, bool, error)
+	}); ok {
+		return p.Path(ctx)
+	}
+	return "", false, nil
+}
+
+func (f *FaultyStore) GetChunkLocationsWithPaths(ctx context.Context, hashes hash.HashSet) (map[string]map[hash.Hash]nbs.Range, error) {
+	return f.ChunkStore.(interface {
+		GetChunkLocationsWithPaths(context.Context, hash.HashSet) (map[string]map[hash.Hash]nbs.Range, error)
+	}).GetChunkLocationsWithPaths(ctx, hashes)
 }
 
 func WrapStore(cs chunks.ChunkStore) (*FaultyStore, error) {
